@@ -254,6 +254,46 @@ TextCallOK(B, A, c, before, after) ==
                    THEN before = after      \* reversed range: an error or an empty result (C37)
                    ELSE IsErr(c) /\ before = after
          ELSE IF IsErr(c) THEN A = B ELSE TRUE
+    [] c.fn = "split_block" ->
+         \* a new, empty map object stands at idx (one object-replacement character in the text)
+         IF enc \in {"cp", "u8", "u16"} THEN
+           IF c.idx <= n
+           THEN IF AlignedK(old, c.idx) # {}
+                THEN LET ka == CHOOSE k \in AlignedK(old, c.idx) : TRUE IN
+                     /\ Ok(c) /\ T \in DOMAIN A
+                     /\ A[T].text = SubSeq(old, 1, ka) \o <<"objrepl">> \o SubSeq(old, ka + 1, Len(old))
+                     /\ A[T].len = n + TokW("objrepl")
+                     /\ c.ret \in DOMAIN A /\ c.ret \notin DOMAIN B
+                     /\ A[c.ret].ty = "map" /\ DOMAIN A[c.ret].ents = {}
+                     /\ \A id \in DOMAIN A \ {T, c.ret} : id \in DOMAIN B /\ A[id] = B[id]
+                     /\ \A id \in DOMAIN B : id \in DOMAIN A
+                ELSE IsErr(c) => A = B
+           ELSE IsErr(c) /\ A = B
+         ELSE IF IsErr(c) THEN A = B ELSE TRUE
+    [] c.fn \in {"join_block", "replace_block"} ->
+         \* join: the block marker at idx goes away; replace: a fresh empty block takes its place.  What the calls do
+         \* when a character (not a block) stands at idx is not documented: an error that changes nothing, or the
+         \* same effect on that element, are both accepted.
+         IF enc \in {"cp", "u8", "u16"} THEN
+           IF c.idx < n
+           THEN IF AlignedK(old, c.idx) # {}
+                THEN LET ka == CHOOSE k \in AlignedK(old, c.idx) : TRUE
+                         isblock == old[ka + 1] = "objrepl"
+                         without == SubSeq(old, 1, ka) \o SubSeq(old, ka + 2, Len(old))
+                         effect ==
+                           /\ Ok(c) /\ T \in DOMAIN A
+                           /\ IF c.fn = "join_block"
+                              THEN /\ A[T].text = without /\ A[T].len = n - TokW(old[ka + 1])
+                                   /\ \A id \in DOMAIN A \ {T} : id \in DOMAIN B /\ A[id] = B[id]
+                              ELSE /\ A[T].text = SubSeq(old, 1, ka) \o <<"objrepl">> \o SubSeq(old, ka + 2, Len(old))
+                                   /\ A[T].len = n - TokW(old[ka + 1]) + TokW("objrepl")
+                                   /\ c.ret \in DOMAIN A /\ c.ret \notin DOMAIN B
+                                   /\ A[c.ret].ty = "map" /\ DOMAIN A[c.ret].ents = {}
+                                   /\ \A id \in DOMAIN A \ {T, c.ret} : id \in DOMAIN B /\ A[id] = B[id]
+                     IN  IF isblock THEN effect ELSE (IsErr(c) /\ A = B) \/ effect
+                ELSE IsErr(c) => A = B
+           ELSE IsErr(c) /\ A = B
+         ELSE IF IsErr(c) THEN A = B ELSE TRUE
     [] c.fn \in {"put", "put_object", "increment", "delete"} /\ IsKey(c) -> IsErr(c) /\ A = B
     [] c.fn \in {"insert", "splice"} -> IsErr(c) /\ A = B
     [] OTHER -> IF IsErr(c) THEN A = B ELSE TRUE
